@@ -335,7 +335,9 @@ def build(spec):
         if sv is not None and sv[0] == "del":
             idx = []
         # an allele only carries variants in regions its structure retains, and one variant per position
-        idx = [i for i in idx if retained(sv, sites[i][4])]
+        if not (spec.get("keep_lost") and sv is not None and sv[0] in ("left", "right")):
+            # (stress option keep_lost: a database fusion allele may list variants in the part of the gene it does not retain)
+            idx = [i for i in idx if retained(sv, sites[i][4])]
         seen_pos = set()
         uniq_idx = []
         for i in idx:
@@ -425,7 +427,7 @@ KINDS_READS = ["snp", "snp", "snp", "ins", "del", "mnp"]
 
 @st.composite
 def db_specs(draw, kinds=KINDS_READS, max_sites=10, max_alleles=9, sv=True, pseudo=None, dual_opposite=None, gaps=True,
-             chrs=("7",), stress=False, small=False, name="GA", force_sv=False, twins=False, orphan_core=False, echo=False):
+             chrs=("7",), stress=False, small=False, name="GA", force_sv=False, twins=False, orphan_core=False, echo=False, keep_lost=False):
     n_ex = draw(st.integers(2, 3 if small else 4))
     elen = st.sampled_from([30, 45, 60, 90] if small else [30, 60, 90, 120, 150])
     ilen = st.integers(40, 90) if small else st.integers(40, 220)
@@ -502,6 +504,15 @@ def db_specs(draw, kinds=KINDS_READS, max_sites=10, max_alleles=9, sv=True, pseu
             spec["collide"] = draw(st.integers(4, 6))
         if draw(st.integers(0, 2)) == 0:
             spec["unpadded"] = draw(st.integers(6, 8))
+        if keep_lost and draw(st.integers(0, 1)) == 0:
+            spec["keep_lost"] = True
+            # a database allele of a bare left fusion that repeats a plain allele's variants and adds one more (which may lie
+            # in the part of the gene the fusion does not retain)
+            bare = [a for a in alls if a.get("sv") and a["sv"][0] == "left" and not a["sites"]]
+            plain_ = [a for a in alls if not a.get("sv")]
+            if bare and plain_:
+                src = plain_[draw(st.integers(0, len(plain_) - 1))]
+                spec["alleles"] = alls + [{"sites": list(src["sites"]) + [draw(st.integers(0, ns - 1))], "sv": list(bare[0]["sv"])}]
     if draw(st.integers(0, 2)) == 0:
         spec["region_order"] = {"hg19": draw(st.integers(0, 1000)), "hg38": draw(st.integers(0, 1000))}
     if draw(st.integers(0, 2)) == 0:
